@@ -28,6 +28,8 @@ RULE = (
     "kept/'*', tags == input's plus exactly BO,NO, links == input links inside the component, S before L, S lines sorted by "
     "(BO,NO), CSV lists every node once with the same BO/NO and orange<=>NO=0. Non-trivial A: a link with '-' on both ends, a "
     "self-link or a both-ends declaration; B: >=2 chromosomes or --with-sequence. Distinct by SHA-1 of the case."
+    " Later additions: 120 chromosomes ordered with 40 spare file descriptors, names containing commas (CSV "
+    "parsed as CSV), only graph-carrying files count as unexpected output."
 )
 ASSUMPTIONS = [
     "two declarations of the same adjacency that disagree in overlap or tags, dangling links and non-'<int>M' overlaps are not generated",
